@@ -107,6 +107,9 @@ type sccp struct {
 	// override binds chosen SSA values (loads, calls) to constants: the
 	// "finite enumerated input" a table is extracted over.
 	override map[ssa.Value]cval
+	// startBlock, when non-nil, starts the propagation there instead of at the
+	// function entry (used to extract automata state by state).
+	startBlock *ssa.BasicBlock
 }
 
 func (p *Program) newSCCP() *sccp { return &sccp{p: p, maxDepth: 4} }
@@ -166,7 +169,11 @@ func (s *sccp) run(f *ssa.Function, args []cval, depth int) *sccpRun {
 	for _, fv := range f.FreeVars {
 		r.val[fv] = cTop
 	}
-	r.execB[0] = true
+	if s.startBlock != nil && depth == 0 {
+		r.execB[s.startBlock.Index] = true
+	} else {
+		r.execB[0] = true
+	}
 	for iter := 0; iter < 10000; iter++ {
 		changed := false
 		for _, b := range f.Blocks {
@@ -429,6 +436,9 @@ func (r *sccpRun) call(x *ssa.Call) bool {
 		return false
 	}
 	setResults := func(res []cval) bool {
+		if len(res) > 0 && res[0].k == 0 {
+			return false // the hook says: stop here (value undefined)
+		}
 		if len(res) == 1 {
 			return r.set(x, res[0])
 		}
